@@ -25,15 +25,15 @@ ASSUMPTIONS = ["a response never names a leader that its own broker list omits (
                "recovery budget: sends issued after the last fault succeed using at most max_req_attempts produce "
                "attempts; consumers have delivered the whole log within 40 virtual seconds of the last fault",
                "at least one bootstrap address keeps answering (otherwise no client could re-resolve)"]
-REACH_MIN = {"responses_compared": {"quick": 1500, "thorough": 40000},
-             "view_changed_by_response": {"quick": 500, "thorough": 12000},
-             "full_refresh_with_removed_broker": {"quick": 40, "thorough": 1000},
-             "connections_closed_for_removed": {"quick": 15, "thorough": 400},
-             "dials_checked": {"quick": 400, "thorough": 10000},
-             "readdressed_dials": {"quick": 10, "thorough": 250},
-             "invalidations_checked": {"quick": 150, "thorough": 4000},
-             "recover_sends_after_faults": {"quick": 150, "thorough": 4000},
-             "recover_faults": {"quick": 100, "thorough": 3000}}
+REACH_MIN = {"responses_compared": {"quick": 1500, "thorough": 21093},
+             "view_changed_by_response": {"quick": 500, "thorough": 7031},
+             "full_refresh_with_removed_broker": {"quick": 40, "thorough": 562},
+             "connections_closed_for_removed": {"quick": 15, "thorough": 210},
+             "dials_checked": {"quick": 400, "thorough": 5625},
+             "readdressed_dials": {"quick": 10, "thorough": 140},
+             "invalidations_checked": {"quick": 150, "thorough": 2109},
+             "recover_sends_after_faults": {"quick": 150, "thorough": 2109},
+             "recover_faults": {"quick": 100, "thorough": 1406}}
 
 TOPICS = ["m0", "m1", "m2", "m3", "m4"]
 
